@@ -62,6 +62,8 @@ def run(run, args):
     run.oblige("signal-fraction request = fixed request for the Poisson estimate", not pres[0], "")
     broken = standard_proof_obligations(run, "C09", THEOREMS) if THEOREMS else []
     broken += standard_proof_obligations(run, "C09b", ["C09_center_bounds", "C09_center_between", "C09_element_sandwich", "C09_table_sane"])
+    broken += standard_proof_obligations(run, "C09c", ["C09_center_ladder", "C09_center_ladder_between", "C09_center_strict", "C09_element_ladder",
+                                                       "C09_ladder_gap", "C09_table_ladder", "C09_table_ladder_read", "C09_table_gap", "C09_glucose_strict"])
     for k in sorted(knowns):
         print("KNOWN-FINDING: property=C09 %s %s" % (k, known[k]))
     if fails:
